@@ -2,11 +2,12 @@
 # Build the Go harness inside the oras-go module through an overlay; /repo is not touched.
 set -euo pipefail
 export GOFLAGS=-mod=mod GOPROXY=off GOSUMDB=off GOTOOLCHAIN=local
-V=/verif
+V=${VERIF_ROOT:-$(cd "$(dirname "${BASH_SOURCE[0]}")/.." && pwd)}
+export V
 mkdir -p $V/build/bin
 python3 - <<'PY'
 import json, os, glob
-V='/verif'
+V=os.environ['V']
 rep={}
 for f in sorted(glob.glob(V+'/go/harness/*.go')):
     rep['/repo/verifharness/'+os.path.basename(f)]=f
